@@ -315,19 +315,19 @@ fn subset_composite_glyph(g: &CompositeGlyph, plan: &Plan) -> Vec<u8> {
 // trim padding bytes for simple glyphs, return trimmed length of the raw data for flags & x/y coordinates
 fn trim_simple_glyph_padding(glyph_data: &[u8], num_coords: u16) -> usize {
     let mut coord_bytes: usize = 0;
-    let mut coords_with_flags: u16 = 0;
+    let mut coords_with_flags: u32 = 0;
     let length = glyph_data.len();
     let mut i: usize = 0;
     while i < length {
         let flag = SimpleGlyphFlags::from_bits_truncate(glyph_data[i]);
         i += 1;
 
-        let mut repeat: u8 = 1;
+        let mut repeat: u16 = 1;
         if flag.contains(SimpleGlyphFlags::REPEAT_FLAG) {
             if i >= length {
                 return 0;
             }
-            repeat = glyph_data[i] + 1;
+            repeat = glyph_data[i] as u16 + 1;
             i += 1;
         }
 
@@ -345,14 +345,14 @@ fn trim_simple_glyph_padding(glyph_data: &[u8], num_coords: u16) -> usize {
             y_bytes = 2;
         }
 
-        coord_bytes += ((x_bytes + y_bytes) * repeat) as usize;
-        coords_with_flags += repeat as u16;
-        if coords_with_flags >= num_coords {
+        coord_bytes += (x_bytes + y_bytes) as usize * repeat as usize;
+        coords_with_flags += repeat as u32;
+        if coords_with_flags >= num_coords as u32 {
             break;
         }
     }
 
-    if num_coords != coords_with_flags {
+    if num_coords as u32 != coords_with_flags {
         return 0;
     }
     i += coord_bytes;
